@@ -170,6 +170,9 @@ def _add_zids(zdir: Path, page: Page) -> None:
             if zdt.is_long_date_spec(old_body.split(" ")[0]):
                 old_body = " ".join(old_body.split(" ")[1:])
             note.body = f"{zid} {old_body}".rstrip()
+            # A note that has no ZID yet cannot have a modify date spec (which
+            # lives in front of the ZID) either.
+            note.modify_date = note.create_date
             new_notes.append(note)
     if new_notes:
         page.events.append(
